@@ -462,6 +462,17 @@ C04Clauses ==
   /\ ClauseAt("RadialParallelToGradPsi", \A x \in XS : \A y \in YS : AdjXRow(y) \/ (Obs.sinc[x + 1][y + 1] # NANV /\ Obs.sinc[x + 1][y + 1] <= 10000), "awayX")
 
 --------------------------------------------------------------------------
+(* C07 pair: the same orthogonal grid with curvature_type "curl(b/B)" (A) and "curl(b/B) with x-y derivatives" (B).  The second
+   form differentiates grid quantities with centred differences, so the two agree to the discretisation error of the grid:
+   Obs.tolpm = allowed difference in 1e-6 of the largest |A| (set from the resolution: 6 % at nx = 2 per segment, 4.5 % at 4, 2.5 % at 8),
+   outside guard cells, the radial edge columns (one-sided differences) and the two rows of cells at an X-point (singular metric) *)
+C07PairClauses ==
+  /\ ClauseAt("TwoFormsSameGrid", Obs.posdiff <= 100, "pair")
+  /\ \A c \in {"x", "y", "z"} :
+       ClauseAt("TwoFormsAgree", \A x \in XS : \A y \in YS : (IsGuard(y) \/ XRow(y) \/ x = 0 \/ x = NX - 1) \/
+          Near(Obs.curl[c].A[x + 1][y + 1], Obs.curl[c].B[x + 1][y + 1], Obs.tolpm), c)
+
+--------------------------------------------------------------------------
 Observe ==
   /\ stage = "file"
   /\ CASE Obs.prop = "C01" -> C01Clauses
@@ -475,6 +486,7 @@ Observe ==
        [] Obs.prop = "C10" -> C10Clauses
        [] Obs.prop = "C11" -> C11Clauses
        [] Obs.prop = "C04" -> C04Clauses
+       [] Obs.prop = "C07" -> IF Obs.kind = "twoforms" THEN C07PairClauses ELSE PairClauses
        [] Obs.prop = "C06" -> C06Clauses
        [] OTHER -> TRUE
   /\ stage' = "observed"
